@@ -463,10 +463,20 @@ class World(object):
         if self.hook_reads:
             # a hook that looks at the tree (logging, validation, capacity checks ...)
             others = (arg,) if kind in PARENT_HOOKS else tuple(arg)[:2]
-            for attr in self.hook_reads:
-                getattr(node, attr)
-                for o in others:
-                    getattr(o, attr)
+            try:
+                for attr in self.hook_reads:
+                    getattr(node, attr)
+                    for o in others:
+                        getattr(o, attr)
+            except RecursionError as exc:
+                # the hook's own reads ran out of stack (deep inside an unbounded rollback recursion):
+                # this is an exception raised by the hook, like an injected one
+                self.serial += 1
+                self.total_fired += 1
+                exc.sim_serial = self.serial
+                self.hooklog.append((kind, ni, ai, None))
+                self.fired.append((k, kind, ni, "RecursionError", "reads", self.serial))
+                raise
         self.hooklog.append((kind, ni, ai, obs))
         exc, how = self.plan.decide(k, kind, ni)
         if exc is not None:
